@@ -11,11 +11,15 @@ file and on its own output) and
     (`unphaseCur`) must predict exactly that exception class (this is how F2 is recognised as F2).
 History cases: a simulated scenario is phased with the real `whatshap phase`; unphase(phased) must give the same
 data lines as unphase(original), and a second unphase must change nothing.
+Since round E04 also: the header (`unphaseHeader`: lines of the output in order, once and twice; no phase-tag definition left,
+no other line lost), idempotence judged on the whole output including the header (F61), every 4th file also through
+`whatshap unphase -` (standard input), and the bridge `ofC04` from the C04 record model (`c13.of_c04`) on every input.
 """
-import collections, concurrent.futures, json, os, re, shutil
+import collections, concurrent.futures, json, os, re, shutil, subprocess
 
 from harness.gen import sim
 from harness.gen import c13_vcf as G
+from harness.gen import c04_file as F4
 
 RULE = ("case = one generated VCF (1-3 contigs, 0-4 samples, up to 14*scale records; ploidy 1-5 per call, '.', "
         "partially missing, phased/unphased/mixed separators, records without GT, FORMAT fields DP GQ AD FT PS PQ HP in "
@@ -28,11 +32,14 @@ MANIFEST = dict(
          "specification function, which leaves no phase information, preserves allele multisets and every other field, is "
          "idempotent and is invariant under phase-only edits; HEAD's loop raises exactly on the characterised call shapes. "
          "Tied to the working tree by running the real CLI on generated VCFs and comparing field by field with the model, "
-         "plus a text-level oracle of the property on every (input, output) pair and phase/unphase/unphase histories",
+         "plus a text-level oracle of the property on every (input, output) pair and phase/unphase/unphase histories; "
+         "unphase_header is modelled (only phase lines/definitions go, idempotent with a single phasing line; F61 witness), "
+         "and the edit of C04's writer model is proved to be a phase-only edit (unphase after whatshap phase = unphase)",
     design_ref="DESIGN.md §5 C13",
     note="trusted: Lean kernel, axioms ⊆ {propext, Classical.choice, Quot.sound}; hand-written model; htslib/pysam parsing "
          "and serialisation are outside the model (the harness reads input and output as plain text); well-formed = GT first "
-         "in FORMAT, FORMAT column present when the header has samples; header lines are only observed, not judged",
+         "in FORMAT, FORMAT column present when the header has samples; header lines are compared by (key, ID) / (key, text); the "
+         "phase->unphase clause is proved across the C04 writer model (unphase_after_whatshap_phase) for runs without genotype changes",
     technique="Lean 4 model with exception-raising primitives + totality/idempotence/permutation proofs + CLI differential run",
 )
 ASSUMPTIONS = [
@@ -123,6 +130,46 @@ def header_observations(ctx, in_text, out_text):
             ctx.observe("header still declares phase information: " + l[:40])
 
 
+def hlines(text):
+    """header lines as the model's `HLine`s: structured lines by (key, ID), other lines by (key, text)"""
+    out = []
+    for l in text.split("\n"):
+        if not l.startswith("##"):
+            continue
+        m = re.match(r"##([^=]+)=(.*)$", l)
+        if not m:
+            continue
+        key, val = m.group(1), m.group(2)
+        mid = re.match(r"<ID=([^,>]+)", val)
+        if mid:
+            out.append({"key": key, "id": mid.group(1), "text": ""})
+        else:
+            out.append({"key": key, "id": None, "text": val})
+    return out
+
+
+def hkey(h):
+    return (h["key"], h["id"], h["text"])
+
+
+def unphase_stdin(overlay, text):
+    """`whatshap unphase -` reading the VCF from standard input"""
+    env = dict(os.environ)
+    env["PYTHONPATH"] = overlay
+    env.pop("WHATSHAP_VERIF_TRACE", None)
+    r = subprocess.run([sim.PY, "-m", "whatshap", "unphase", "-"], input=text, env=env, capture_output=True, text=True, timeout=600)
+    return r.returncode, r.stdout, r.stderr
+
+
+def c04_records(samples, recs):
+    """records of parse_vcf_text in the JSON of the C04 model (for the bridge `ofC04`)"""
+    out = []
+    for r in recs:
+        fmt = r["format"]
+        out.append(F4.text_frec(r["fixed"], ":".join(fmt) if fmt else None, [":".join(c) for c in r["calls"]], samples))
+    return out
+
+
 def scenario_case(rng):
     """a small phasing scenario, fully serialised (so replay does not need the PRNG)"""
     samples = ("S1",) if rng.random() < 0.6 else ("S1", "S2")
@@ -211,6 +258,9 @@ def _run(ctx, rng, wd):
                 open(p2, "w").write(out)
                 rc2, out2, err2 = unphase(p2)
                 run.update(rc2=rc2, out2=out2, err2=err2)
+                if idx % 4 == 0:
+                    rc3, out3, err3 = unphase_stdin(ctx.overlay, text)
+                    run.update(rc3=rc3, out3=out3, err3=err3)
             res["runs"].append(run)
         shutil.rmtree(d, ignore_errors=True)
         return res
@@ -224,12 +274,17 @@ def _run(ctx, rng, wd):
         for ri, run in enumerate(res["runs"]):
             _, _, recs = G.parse_vcf_text(run["in_text"])
             run["recs"] = recs
-            reqs.append({"op": "c13.unphase", "records": G.model_records(recs)})
+            _, samples, _ = G.parse_vcf_text(run["in_text"])
+            reqs.append(({"op": "c13.unphase", "records": G.model_records(recs)},
+                         {"op": "c13.header", "header": hlines(run["in_text"])},
+                         {"op": "c13.of_c04", "records": c04_records(samples, recs)}))
             where.append((ci, ri))
-    # one request per round trip: requests carry whole files, 200 of them would overfill the pipe buffers
-    answers = [ctx.model.ask_many([r])[0] for r in reqs]
-    for (ci, ri), ans in zip(where, answers):
+    # one file per round trip: requests carry whole files, 200 of them would overfill the pipe buffers
+    answers = [[ctx.model.ask_many([r])[0] for r in rs] for rs in reqs]
+    for (ci, ri), (ans, hans, bans) in zip(where, answers):
         results[ci]["runs"][ri]["model"] = ans
+        results[ci]["runs"][ri]["model_header"] = hans
+        results[ci]["runs"][ri]["model_bridge"] = bans
 
     # ---- stage 3: judge
     for case, res in zip(cases, results):
@@ -279,12 +334,56 @@ def _run(ctx, rng, wd):
             for what, key in oracle(run["in_text"], run["out"]):
                 ctx.fail(tag + what, case, key=key)
             header_observations(ctx, run["in_text"], run["out"])
+            mh = run["model_header"]
+            h_in, h_out = hlines(run["in_text"]), hlines(run["out"])
+            ctx.dist("phasing_lines", sum(1 for h in h_in if h["key"] == "phasing"))
+            # header, independent of the model: no definition of a phase tag is left, every other line of the input survives
+            for h in h_out:
+                if h["key"] == "FORMAT" and h["id"] in G.PHASE_TAGS:
+                    ctx.fail(tag + f"the output header still defines FORMAT {h['id']}", case, key="header-phase-format-left")
+            for h in h_in:
+                if h["key"] != "phasing" and not (h["key"] == "FORMAT" and h["id"] in G.PHASE_TAGS) and hkey(h) not in map(hkey, h_out):
+                    ctx.fail(tag + f"header line {h['key']} {h['id'] or h['text']} of the input is missing in the output", case,
+                             key="header-line-lost")
+            # header, correspondence: the lines in order (`unphaseHeader`)
+            if "cur" not in mh:
+                ctx.disagree("c13.header", case, "input header not accepted by the driver", mh)
+            elif [hkey(h) for h in h_out] not in ([hkey(h) for h in mh["cur"]], [hkey(h) for h in mh["fix"]]):
+                # admissible: the code as it is (first `phasing` line removed) or after fixes/F61.patch (all of them)
+                ctx.disagree("c13.header", case, [hkey(h) for h in h_out], [hkey(h) for h in mh["cur"]])
             if run.get("rc2") != 0:
                 ctx.fail(tag + "second application of unphase fails: " + err_class(run.get("err2", "")), case, key="second-unphase-raises")
             elif data_lines(run["out2"]) != data_lines(run["out"]):
                 ctx.fail(tag + "unphase is not idempotent: second application changes data lines", case, key="not-idempotent")
             elif run["out2"] != run["out"]:
-                ctx.observe("second application changes only header lines")
+                lost = [hkey(h) for h in hlines(run["out"]) if hkey(h) not in [hkey(x) for x in hlines(run["out2"])]]
+                only_phasing = bool(lost) and all(k == "phasing" for k, _, _ in lost)
+                ctx.fail(tag + "unphase is not idempotent: the second application changes the header (lines removed: "
+                         + "; ".join(f"##{k}={t or i}" for k, i, t in lost) + ")", case,
+                         key="F61-second-phasing-line" if only_phasing else "not-idempotent-header")
+            if run.get("rc2") == 0 and "cur2" in mh and [hkey(h) for h in hlines(run["out2"])] not in (
+                    [hkey(h) for h in mh["cur2"]], [hkey(h) for h in mh["fix"]]):
+                ctx.disagree("c13.header(twice)", case, [hkey(h) for h in hlines(run["out2"])], [hkey(h) for h in mh["cur2"]])
+            # standard input instead of a path
+            if "rc3" in run:
+                ctx.dist("stdin", "ok" if run["rc3"] == 0 else "fails")
+                if run["rc3"] != 0:
+                    ctx.fail(tag + "`whatshap unphase -` (standard input) fails with " + err_class(run["err3"]) + " on a file it accepts by path",
+                             case, key="stdin-unphase-raises")
+                elif run["out3"] != run["out"]:
+                    ctx.fail(tag + "`whatshap unphase -` (standard input) writes something else than `whatshap unphase FILE`", case,
+                             key="stdin-differs")
+            # the bridge from the C04 record model: same records, same result
+            mb = run["model_bridge"]
+            if "plain" not in mb:
+                ctx.disagree("c13.of_c04", case, "input not accepted by the driver", mb)
+            else:
+                if mb["plain"] != G.model_records(recs):
+                    first = next((i for i, (x, y) in enumerate(zip(mb["plain"], G.model_records(recs))) if x != y), None)
+                    ctx.disagree("c13.of_c04(plain)", case, {"record": first, "parsed": G.model_records(recs)[first] if first is not None else len(recs)},
+                                 {"bridge": mb["plain"][first] if first is not None else len(mb["plain"])})
+                if mb["unphased"] != model["spec"]:
+                    ctx.disagree("c13.of_c04(unphased)", case, "unphase of the parsed records", "differs from unphase of the bridged records")
             # correspondence with the specification function of the theorems
             _, _, out_recs = G.parse_vcf_text(run["out"])
             impl = G.model_records(out_recs)
